@@ -115,22 +115,42 @@ fn main() {
     }
 }
 
-/// run all queued model requests and their checks
+/// run all queued model requests (in parallel driver processes, each given the prelude) and their checks
 pub fn flush(c: &mut collect::Collector, q: Vec<cases::Pending>, prelude: &[String]) {
-    let mut lines: Vec<String> = prelude.to_vec();
-    lines.extend(q.iter().map(|p| p.req.clone()));
+    let reqs: Vec<String> = q.iter().map(|p| p.req.clone()).collect();
     if let Ok(p) = std::env::var("HARNESS_DUMP_REQ") {
-        let _ = std::fs::write(p, lines.join("\n") + "\n");
+        let _ = std::fs::write(p, prelude.join("\n") + "\n" + &reqs.join("\n") + "\n");
     }
     let t0 = std::time::Instant::now();
-    let resp = model::run_model(&lines);
-    *c.stats.entry("model-ms".to_string()).or_insert(0) += t0.elapsed().as_millis() as u64;
-    for (i, r) in resp.iter().take(prelude.len()).enumerate() {
-        if r != "ok" {
-            c.fail("harness", "corr", "prelude", lines[i].clone(), r.clone());
-        }
+    let parts = if reqs.len() < 2000 { 1 } else { 12.min(reqs.len() / 1000).max(1) };
+    let chunk = (reqs.len() + parts - 1) / parts.max(1);
+    let mut handles = vec![];
+    for part in reqs.chunks(chunk.max(1)) {
+        let mut lines: Vec<String> = prelude.to_vec();
+        lines.extend(part.iter().cloned());
+        let np = prelude.len();
+        handles.push(std::thread::spawn(move || {
+            let resp = model::run_model(&lines);
+            let bad: Vec<(String, String)> =
+                resp.iter().take(np).enumerate().filter(|(_, r)| r.as_str() != "ok").map(|(i, r)| (lines[i].clone(), r.clone())).collect();
+            (bad, resp.into_iter().skip(np).collect::<Vec<String>>())
+        }));
     }
-    for (p, r) in q.into_iter().zip(resp.into_iter().skip(prelude.len())) {
+    let mut resp: Vec<String> = Vec::with_capacity(reqs.len());
+    let mut first = true;
+    for h in handles {
+        let (bad, r) = h.join().expect("model thread");
+        if first {
+            for (l, r) in bad {
+                c.fail("harness", "corr", "prelude", l, r);
+            }
+            first = false;
+        }
+        resp.extend(r);
+    }
+    *c.stats.entry("model-ms".to_string()).or_insert(0) += t0.elapsed().as_millis() as u64;
+    assert_eq!(resp.len(), q.len());
+    for (p, r) in q.into_iter().zip(resp.into_iter()) {
         c.stat("model-requests");
         (p.check)(&r, c);
     }
